@@ -72,6 +72,10 @@ type Exec struct {
 	PreBal, PostBal map[string]map[string]*big.Int
 	// model state before the transaction
 	PreM *model.State
+	// Visit: per-block oracle/observer run after every committed block (it may keep observations in M.Obs)
+	Visit func(e *Exec) []Disc
+	// InitDiscs: what Visit reported on the genesis state
+	InitDiscs []Disc
 	// Annotate may add discrete facts to a discrepancy (for known-finding signatures)
 	Annotate func(e *Exec, d *Disc, tx *model.Tx)
 }
@@ -283,7 +287,11 @@ func (e *Exec) endBlock() (hash []byte, discs []Disc, halted bool) {
 	if pan != "" {
 		return nil, []Disc{{Kind: "panic:Commit", Detail: "Commit panicked: " + firstLine(pan), Sig: map[string]string{"phase": "Commit", "panic": firstLine(pan)}}}, true
 	}
-	return h, nil, false
+	// per-block observer (keeps its observations in M.Obs); runs after every committed block
+	if e.Visit != nil {
+		discs = append(discs, e.Visit(e)...)
+	}
+	return h, discs, false
 }
 
 // Run executes one action on the world and on the model and compares them.
@@ -331,10 +339,13 @@ func (e *Exec) Run(a *Action, oracle bool) (StepObs, []Disc) {
 	} else {
 		e.runGov(a, &obs, &discs)
 	}
-	if oracle && !obs.Halted && !obs.Diverged {
-		discs = append(discs, Compare(e.W, e.M, e.Tracked)...)
-		discs = append(discs, Invariants(e.W)...)
+	if oracle && !obs.Halted {
+		discs = append(discs, SelfConsistency(e.W)...)
+		if !obs.Diverged {
+			discs = append(discs, Compare(e.W, e.M, e.Tracked)...)
+		}
 	}
+
 	return obs, discs
 }
 
